@@ -172,3 +172,98 @@ def _autoescape_shape(repo):
     if not re.search(r"match name\.rsplit\('\.'\)\.next\(\)\s*\{", body):
         raise KeyError("default_auto_escape_callback: extension = text after the last dot")
     return True, "def c02AutoEscapeShapeOk : Bool := true"
+
+
+@item("C02_VALUE_REPR_VARIANTS")
+def _repr_variants(repo):
+    src = read(repo, "minijinja/src/value/mod.rs")
+    body = fn_body(src, r"pub\(crate\) enum ValueRepr\s*\{")
+    body = re.sub(r"//.*", "", body)
+    names = re.findall(r"^\s*([A-Z]\w*)\s*(?:\([^)]*\))?\s*,", body, re.M)
+    if len(names) < 8:
+        raise KeyError("ValueRepr variants")
+    # Value::kind(): variant -> ValueKind (objects by their repr)
+    kb = fn_body(src, r"pub fn kind\(&self\) -> ValueKind\s*\{")
+    kinds = {}
+    for pats, kind in re.findall(r"((?:ValueRepr::\w+(?:\([^)]*\))?\s*\|?\s*)+)=>\s*ValueKind::(\w+)", kb):
+        for v in re.findall(r"ValueRepr::(\w+)", pats):
+            kinds[v] = kind
+    kinds["Object"] = "Object"
+    if set(kinds) != set(names):
+        raise KeyError(f"Value::kind arms {sorted(kinds)} vs variants {sorted(names)}")
+    # Value::as_str(): which variants have text without conversion
+    ab = fn_body(src, r"pub fn as_str\(&self\) -> Option<&str>\s*\{")
+    arms = re.findall(r"ValueRepr::(\w+)\([^)]*\)\s*=>\s*([^,\n]+),", ab)
+    as_str = [f"{v}:{'utf8' if 'from_utf8' in rhs else 'some'}" for v, rhs in arms]
+    if not re.search(r"_\s*=>\s*None", ab) or not as_str:
+        raise KeyError("Value::as_str arms")
+    pairs = [f"{n}:{kinds[n]}" for n in names]
+    lst = lambda xs: "[" + ", ".join(lean_str(x) for x in xs) + "]"
+    lean = (f"def c02ValueReprKinds : List String := {lst(pairs)}\n"
+            f"def c02AsStrArms : List String := {lst(as_str)}")
+    return {"variants": pairs, "as_str": as_str}, lean
+
+
+@item("C02_WRITE_ESCAPED_DISPATCH")
+def _dispatch(repo):
+    """the decision structure of write_escaped / write_with_html_escaping as a list of tokens, in
+    source order; MJ.Safe.modelDispatch must be equal to it"""
+    src = _strip_comments(read(repo, "minijinja/src/utils.rs"))
+    toks = []
+    we = fn_body(src, r"pub fn write_escaped\(")
+    m = re.match(r"\s*if let ValueRepr::String\(ref s, StringType::Safe\) = value\.0\s*\{\s*return out\.write_str\(s\)", we)
+    if not m:
+        raise KeyError("write_escaped: safe-string bypass is not the first statement")
+    toks.append("safe-string:raw")
+    mm = fn_body(we, r"match auto_escape\s*\{")
+    for mode, rhs in re.findall(r"AutoEscape::(\w+)(?:\(\w+\))?\s*=>\s*([^\n]+),\s*$", mm, re.M):
+        if "write_with_html_escaping" in rhs:
+            act = "html"
+        elif "json_escape_write" in rhs:
+            act = "json"
+        elif "invalid_autoescape" in rhs:
+            act = "error"
+        elif re.search(r'write!\(out,\s*"\{value\}"\)', rhs):
+            act = "display"
+        else:
+            act = "?" + rhs.strip()
+        toks.append(f"mode:{mode}:{act}")
+    wh = fn_body(src, r"fn write_with_html_escaping\(out: &mut Output, value: &Value\) -> fmt::Result\s*\{")
+    first = fn_body(wh, r"match value\.0\s*\{")
+    fast = re.findall(r"ValueRepr::(\w+)\(v\)(\s+if\s[^\n]+?)?\s+=>", first)
+    if not fast:
+        raise KeyError("write_with_html_escaping: fast-path arms")
+    for v, guard in fast:
+        toks.append(f"fast:{v}{':guarded' if guard.strip() else ''}:raw")
+    if not re.search(r"_\s*=>\s*\{\s*\}", first):
+        raise KeyError("write_with_html_escaping: fast-path match has no empty default")
+    rest = wh[wh.index(first) + len(first):]
+    if re.search(r"if let ValueRepr::SmallStr\(ref s\) = value\.0\s*\{\s*let s = s\.as_str\(\);\s*if is_ascii_integer_str\(s\)\s*\{\s*return out\.write_str\(s\);", rest):
+        toks.append("smallstr-ascii-integer:raw")
+    chain = re.search(r"if let Some\(s\) = value\.as_str\(\)\s*\{(.*)$", rest, re.S)
+    if not chain:
+        raise KeyError("write_with_html_escaping: as_str branch")
+    c = chain.group(1)
+    if re.match(r"\s*if !needs_html_escaping\(s\)\s*\{\s*out\.write_str\(s\)\s*\}\s*else\s*\{\s*write!\(out,\s*\"\{\}\",\s*HtmlEscape\(s\)\)\s*\}", c):
+        toks.append("as_str:prefilter-or-escape")
+    else:
+        toks.append("as_str:?")
+    # the else-if / else chain after the string branch
+    tail = c
+    for cond, body in re.findall(r"\}\s*else if\s+(.*?)\s*\{\s*(write![^\n]*)\s*", tail, re.S):
+        cond = re.sub(r"\s+", " ", cond)
+        km = re.match(r"matches!\( value\.kind\(\), ((?:ValueKind::\w+\s*\|?\s*)+)\)", cond)
+        if km:
+            what = "kind[" + ",".join(re.findall(r"ValueKind::(\w+)", km.group(1))) + "]"
+        else:
+            what = "cond[" + cond + "]"
+        act = "display" if re.search(r'write!\(out,\s*"\{value\}"\)', body) else ("escape-to_string" if "HtmlEscape(&value.to_string())" in body else "?")
+        toks.append(f"{what}:{act}")
+    em = re.search(r"\}\s*else\s*\{\s*(write![^\n]*)\s*\}\s*$", tail.rstrip().rstrip("}").rstrip() + "}", re.S)
+    last = re.findall(r"\}\s*else\s*\{\s*(?://[^\n]*\s*)*(write![^\n]*)", tail)
+    if not last:
+        raise KeyError("write_with_html_escaping: final else")
+    body = last[-1]
+    act = "display" if re.search(r'write!\(out,\s*"\{value\}"\)', body) else ("escape-to_string" if "HtmlEscape(&value.to_string())" in body else "?")
+    toks.append(f"else:{act}")
+    return toks, "def c02WriteEscapedDispatch : List String := [" + ", ".join(lean_str(t) for t in toks) + "]"
